@@ -341,6 +341,41 @@ func TestC09(t *testing.T) {
 			yield(c09Key{k})
 		}
 	}, keyCheck)
+	// keys the library generates itself print and parse like any other
+	type genKey struct {
+		Tape uint64 `json:"tape"`
+	}
+	pbt.Rapid(s, "generated-keys", s.N(300, 3000), func(t *rapid.T) genKey { return genKey{rapid.Uint64().Draw(t, "tape")} }, func(c genKey) error {
+		var id, id2 *age.X25519Identity
+		var err error
+		hx.WithTape(&hx.Tape{Seed: c.Tape}, func() {
+			id, err = age.GenerateX25519Identity()
+			if err == nil {
+				id2, err = age.GenerateX25519Identity()
+			}
+		})
+		if err != nil {
+			return pbt.Failf("C09/valid-rejected", "GenerateX25519Identity failed: %v", err)
+		}
+		s.St.Case(true, stats.HashJSON(c), "A:generated-key")
+		for _, g := range []*age.X25519Identity{id, id2} {
+			back, perr := age.ParseX25519Identity(g.String())
+			if perr != nil || back.String() != g.String() || back.Recipient().String() != g.Recipient().String() {
+				return pbt.Failf("C09/print-parse", "a generated identity prints as %s, which parses to %v (%v)", g.String(), back, perr)
+			}
+			if _, d, derr := refage.Bech32Decode(g.String()); derr != nil || len(d) != 32 || refage.Bech32Encode("AGE-SECRET-KEY-", d) != g.String() {
+				return pbt.Failf("C09/print-parse", "a generated identity prints as %s, not the canonical spelling of a 32-byte key (%v)", g.String(), derr)
+			}
+			r, rerr := age.ParseX25519Recipient(g.Recipient().String())
+			if rerr != nil || r.String() != g.Recipient().String() {
+				return pbt.Failf("C09/print-parse", "the recipient of a generated identity prints as %s, which does not parse back (%v)", g.Recipient().String(), rerr)
+			}
+		}
+		if id.String() == id2.String() {
+			return pbt.Failf("C09/print-parse", "two generated identities are the same key %s", id.Recipient().String())
+		}
+		return nil
+	})
 	pbt.Rapid(s, "keys", s.N(5000, 30000), func(t *rapid.T) c09Key {
 		return c09Key{rapid.SliceOfN(rapid.Byte(), 32, 32).Draw(t, "scalar")}
 	}, keyCheck)
